@@ -682,11 +682,12 @@ func c10DecoderSub() *engine.Sub {
 func c10ShapeSub() *engine.Sub {
 	shapes := []string{"sigpayload-1-entry-header-only", "sigpayload-1-entry-payload-only", "sigpayload-3-entries-extra-key", "sigpayload-two-ucan-tags", "sigpayload-3-entries-two-tags",
 		"header-wrong-kind", "outer-length-1", "outer-length-3", "outer-map", "sig-not-bytes", "sigpayload-not-map",
-		"dlg-payload-under-inv-tag", "inv-payload-under-dlg-tag", "unknown-ucan-tag", "tag-without-prefix", "valid-other-type"}
+		"dlg-payload-under-inv-tag", "inv-payload-under-dlg-tag", "unknown-ucan-tag", "tag-without-prefix", "valid-other-type",
+		"near-tag:append-0", "near-tag:append-+x", "near-tag:append-space", "near-tag:drop-last-char", "near-tag:upper-case", "near-tag:other-version", "near-tag:no-version", "near-tag:leading-space", "near-tag:double-slash", "near-tag:empty"}
 	return &engine.Sub{
 		Name: "envelope-shapes-and-tags",
 		Repeat: true,
-		Rule: "well-signed envelopes whose signed part is not exactly one header plus one payload (1 or 3 entries, two ucan/ tags, no header, header of the wrong kind), outer lists of length 1 or 3, a payload under the other type's tag or under an unknown ucan/ tag, and a valid token of the other type offered to each typed decoder: all must be rejected; a delegation is never returned as an invocation or vice versa; non-trivial = all",
+		Rule: "well-signed envelopes whose signed part is not exactly one header plus one payload (1 or 3 entries, two ucan/ tags, no header, header of the wrong kind), outer lists of length 1 or 3, a payload under the other type's tag, under an unknown ucan/ tag or under ten near-miss spellings of the right tag (suffix, prefix, case, version), and a valid token of the other type offered to each typed decoder: all must be rejected; a delegation is never returned as an invocation or vice versa; non-trivial = all",
 		Bound: func(string) string { return fmt.Sprintf("%d shapes x 2 kinds x 6 decoders", len(shapes)) },
 		Gen: func(tier string, emit func(any) bool) {
 			for _, kind := range []string{"dlg", "inv"} {
@@ -745,6 +746,32 @@ func c10ShapeSub() *engine.Sub {
 				sealed = sign(sigPayloadNode(p.Header, "ucan/x@1.0.0-rc.1", pl))
 			case "tag-without-prefix":
 				sealed = sign(sigPayloadNode(p.Header, "dlg@1.0.0-rc.1", pl))
+			case "near-tag:append-0", "near-tag:append-+x", "near-tag:append-space", "near-tag:drop-last-char", "near-tag:upper-case", "near-tag:other-version", "near-tag:no-version", "near-tag:leading-space", "near-tag:double-slash", "near-tag:empty":
+				// a tag that is almost - but not exactly - the tag of the token type
+				var t string
+				switch strings.TrimPrefix(cs.Shape, "near-tag:") {
+				case "append-0":
+					t = p.Tag + "0"
+				case "append-+x":
+					t = p.Tag + "+x"
+				case "append-space":
+					t = p.Tag + " "
+				case "drop-last-char":
+					t = p.Tag[:len(p.Tag)-1]
+				case "upper-case":
+					t = strings.ToUpper(p.Tag)
+				case "other-version":
+					t = strings.Replace(p.Tag, "1.0.0", "1.0.1", 1)
+				case "no-version":
+					t = p.Tag[:strings.Index(p.Tag, "@")]
+				case "leading-space":
+					t = " " + p.Tag
+				case "double-slash":
+					t = strings.Replace(p.Tag, "/", "//", 1)
+				case "empty":
+					t = ""
+				}
+				sealed = sign(sigPayloadNode(p.Header, t, pl))
 			case "valid-other-type":
 				// a perfectly valid token: the decoder of the other type must reject it, the generic one returns its own type
 				sealed = sign(sigPayloadNode(p.Header, p.Tag, pl))
